@@ -61,14 +61,14 @@ type DiskTracker struct {
 	durable map[string]map[string]*fobj // dir -> name -> object at last dirsync
 	nextObj int
 
-	Every    int // capture an image at every k-th event (0 = none)
-	MaxImgs  int
-	snapshot func() (acked uint64, ncommits int, step uint64, phase string)
-	enabled  bool
-	lastSig  string
+	Every        int // capture an image at every k-th event (0 = none)
+	MaxImgs      int
+	snapshot     func() (acked uint64, ncommits int, step uint64, phase string)
+	enabled      bool
+	lastSig      string
 	lastPowerSig string
-	KillImages bool // false = power-loss images only (C10; kill images are C08's job)
-	Capture  bool // images are taken only while the scheduler serialises execution
+	KillImages   bool // false = power-loss images only (C10; kill images are C08's job)
+	Capture      bool // images are taken only while the scheduler serialises execution
 	// torn-write synthesis
 	Torn      bool
 	TornEvery int // derive torn variants at every k-th append event
